@@ -47,14 +47,14 @@ Definition granted_seen (out : list obs) : list bentry :=
                      | _ => []
                      end) out.
 
-Definition revoked_seen (out : list obs) : list (eaddr * N * faddr) :=
+Definition revoked_seen (out : list obs) : list (N * (eaddr * N) * faddr) :=
   flat_map (fun x => match x with
-                     | OEvent EvBind ChRemove _ _ (Some cli) (Some lf) => [ (srv_key lf, cli) ]
+                     | OEvent EvBind ChRemove ski _ (Some cli) (Some lf) => [ (ski, srv_key lf, cli) ]
                      | _ => []
                      end) out.
 
-Definition revoke (rv : list (eaddr * N * faddr)) (a : list bentry) : list bentry :=
-  filter (fun x => negb (existsb (fun r => hit (snd r) (fst r) x) rv)) a.
+Definition revoke (rv : list (N * (eaddr * N) * faddr)) (a : list bentry) : list bentry :=
+  filter (fun x => negb (existsb (fun r => hit (fst (fst r)) (snd r) (snd (fst r)) x) rv)) a.
 
 (* is the function announced as writable on the feature? *)
 Definition writable (lf : lfeat) (fn : N) : bool :=
